@@ -2,6 +2,7 @@ import OapiVerif.Proofs.Responses
 import OapiVerif.Proofs.GoJsonEnc
 import OapiVerif.Proofs.Form
 import OapiVerif.Proofs.Bodies
+import OapiVerif.Gen.MediaSwitch
 /-!
 C13 — Client response parsing fills the declared slot.
 
@@ -210,6 +211,26 @@ theorem C13_method_suffix_injective_in_tag (a b : Body) (ha : a.dflt = false) (h
     have h1 := List.append_cancel_left (by simpa [List.append_assoc] using h : w "With" ++ (a.tag ++ w "Body") = w "With" ++ (b.tag ++ w "Body"))
     exact List.append_cancel_right h1
   · intro h; rw [h]
+
+/-- **The model's `classify` is the switch of `GenerateBodyDefinitions` as it stands in the source**: the translator
+(harness/mediaswitch.go, go/ast) writes that switch into `Gen/MediaSwitch.lean` on every run; evaluating it the way Go does
+(first clause whose condition holds) gives `classify`, for every media type and whatever `IsMediaTypeJson` /
+`mediaTypeToCamelCase` compute. A clause added, removed, reordered or edited in operations.go breaks this proof. -/
+theorem C13_body_switch_translated (E : Env) (ct : Str) :
+    evalSwitch E Gen.MediaSwitch.bodySwitch ct = classify E ct := by
+  unfold Gen.MediaSwitch.bodySwitch classify
+  simp only [evalSwitch, Cond.holds, appJson, formUrl, textPlain, multipartPrefix]
+  by_cases h1 : ct = w "application/json"
+  · simp [h1]
+  · by_cases h2 : E.isJson ct = true
+    · simp [h1, h2]
+    · by_cases h3 : (w "multipart/").isPrefixOf ct = true
+      · simp [h1, h2, h3]
+      · by_cases h4 : ct = w "application/x-www-form-urlencoded"
+        · simp [h1, h2, h3, h4]
+        · by_cases h5 : ct = w "text/plain"
+          · simp [h1, h2, h3, h4, h5]
+          · simp [h1, h2, h3, h4, h5]
 
 def demoEnv : Env := ⟨fun ct => ct = appJson || (w "+json").isSuffixOf ct, fun _ => w "ApplicationVndApiPlusJSON"⟩
 
